@@ -83,7 +83,7 @@ def navigate(w, step):
     raise ValueError(kind)
 
 
-def attempts(w, is_group: bool, CL) -> Dict[str, List[Any]]:
+def attempts(w, is_group: bool, CL, lroot=None) -> Dict[str, List[Any]]:
     """Named thunks per category; each returns normally iff the operation was carried out."""
     a = w.attrs
     mut = [("attrs.__setitem__", lambda: a.__setitem__("zz", 1)), ("attrs.__delitem__", lambda: a.__delitem__("ak")),
@@ -115,7 +115,9 @@ def attempts(w, is_group: bool, CL) -> Dict[str, List[Any]]:
     if is_group:
         harmless += [("keys", lambda: list(w.keys())), ("__len__", lambda: len(w)), ("__contains__", lambda: "zz" in w)]
     up = [("file", lambda: w.file)]
-    if is_group:
+    # an absolute path is an upward operation where it leaves the local subtree; below a local root "/" nothing does
+    # (there the pinned code refuses absolute paths as well, but accepting them would not break the property)
+    if is_group and lroot != []:
         up += [("__getitem__ absolute", lambda: w["/d"]), ("get absolute", lambda: w.get("/d")),
                ("__contains__ absolute", lambda: "/d" in w)]
     return {"mutate": mut, "read": read, "upward": up, "harmless": harmless}
@@ -258,7 +260,7 @@ def run(tier: str) -> int:
                 if not ok or case["expect"]["mutate"] == "-":
                     continue
                 is_group = hasattr(w, "keys")
-                att = attempts(w, is_group, CL)
+                att = attempts(w, is_group, CL, (case.get("lroot") or [None])[0])
                 for cat in ("mutate", "read", "upward"):
                     exp = case["expect"][cat]
                     if exp == "allowed" and cat == "mutate":
